@@ -71,6 +71,14 @@ PROPS = {
             part("v2in", "TestVerif_C08_Sweeps", "sweeps", 0, 0, shards=(8, 16), enum=True),
         ],
     },
+    "C11": {
+        "rule": "round trip / metamorphic: Normalize(X) line k == words Match attributes to line k, and Match(Normalize(X)) == Match(X) for licenses, over every embedded document, every scenario file and generated edited / decorated / concatenated inputs",
+        "assumptions": ["Normalize by design keeps the original spelling; the comparison maps its words through an independent copy of the interchangeable-spelling table"],
+        "parts": [
+            part("v2in", "TestVerif_C11", "generated", 1200, 16000, shards=(8, 16)),
+            part("v2in", "TestVerif_C11_EveryDoc", "every-document", 0, 0, shards=(4, 16), enum=True),
+        ],
+    },
     "C20": {
         "rule": "rapid-generated operation sequences interpreted against reference models (map / list) with the invariant "
                 "checked after every step, plus exhaustive small-scope enumerations; non-trivial and distinct are defined per part (see parts)",
